@@ -7,7 +7,16 @@ Record rcase := Case {
   c_vals : list Z; c_delays : list Z; c_repeat : Z;
   c_ckind : Z; c_cvals : list Z; c_cdelays : list Z; c_crepeat : Z;
   c_at : Z; c_pos : nat; c_horizon : Z; c_fuel : nat;
+  c_dlat : Z;                                                       (* handle_disable() latency *)
+  c_ckind2 : Z; c_cvals2 : list Z; c_cdelays2 : list Z; c_crepeat2 : Z;   (* concurrent second command (0 = none) *)
   c_obs : list obs_ev }.
+
+Definition cmd2_of (c : rcase) : cmd :=
+  match c_ckind2 c with
+  | 1 => CSeq (SeqDef (c_cvals2 c) (c_cdelays2 c) (c_crepeat2 c))
+  | 4 => CDisable
+  | _ => CNone
+  end.
 
 Definition cmd_of (c : rcase) : cmd :=
   match c_ckind c with
@@ -20,13 +29,17 @@ Definition cmd_of (c : rcase) : cmd :=
 
 Definition scenario_of (c : rcase) : scenario :=
   Scenario (c_enabled c) (c_writable c) (c_expr c) (SeqDef (c_vals c) (c_delays c) (c_repeat c))
-           (cmd_of c) (c_at c) (c_pos c) (c_horizon c).
+           (cmd_of c) (c_at c) (c_pos c) (c_horizon c) (c_dlat c).
 
 Definition spec_scn_of (c : rcase) : spec_scn :=
   SpecScn (c_enabled c) (c_writable c) (c_expr c) (c_vals c) (c_delays c) (c_repeat c)
-          (c_ckind c) (c_cvals c) (c_cdelays c) (c_crepeat c) (c_at c) (c_horizon c).
+          (c_ckind c) (c_cvals c) (c_cdelays c) (c_crepeat c) (c_at c) (c_horizon c) (c_dlat c).
 
-Definition model_log (guard : bool) (c : rcase) : list obs_ev := map enc (sim guard (c_fuel c) (scenario_of c)).
+Definition is_pair (c : rcase) : bool := negb (c_ckind2 c =? 0).
+
+Definition model_log (guard : bool) (c : rcase) : list obs_ev :=
+  if is_pair c then map enc2 (sim2 (c_fuel c) (scenario_of c) (cmd2_of c))
+  else map enc (sim guard (c_fuel c) (scenario_of c)).
 
 (* indices of the cases whose observed log differs from the model's (guard = true: cancel() does not re-raise) *)
 Definition bad_model (cases : list rcase) : list nat :=
@@ -36,4 +49,5 @@ Definition bad_model_old (cases : list rcase) : list nat :=
   mismatches (fun c => list_eqb ev_eqb (model_log false c) (c_obs c)) cases 0.
 (* indices of the cases whose observed log contradicts the specification *)
 Definition bad_spec (cases : list rcase) : list nat :=
-  mismatches (fun c => spec_ok (spec_scn_of c) (c_obs c)) cases 0.
+  mismatches (fun c => if is_pair c then spec2_ok (spec_scn_of c) (c_ckind2 c) (c_cvals2 c) (c_cdelays2 c) (c_crepeat2 c) (c_obs c)
+                       else spec_ok (spec_scn_of c) (c_obs c)) cases 0.
